@@ -434,8 +434,12 @@ def _write_longstring(file: IO[str], extended: bool, text: str, *, indent: str) 
         # first block.
         split_pos = remaining.rfind(' ', 0, LIMIT) + 1
         if split_pos == (-1 + 1):
-            # Not found, just split exactly at the end.
+            # Not found, just split exactly at the end - but never between a backslash and
+            # the character it escapes, that would escape the closing quote instead.
             split_pos = LIMIT
+            backslashes = len(remaining[:split_pos]) - len(remaining[:split_pos].rstrip('\\'))
+            if backslashes % 2 == 1:
+                split_pos -= 1
         sections.append(f'"{remaining[:split_pos]}"')
         remaining = remaining[split_pos:]
 
